@@ -534,9 +534,14 @@ def c19():
             rng.shuffle(pairs)
             hists += pairs[:40]
 
+        # every history is run twice: with a fresh RuntimeEnvironment per job, and with ONE environment re-used by all its jobs
+        hists = hists + [h + ["@reuse"] for h in hists]
+
         def run_hist(h):
+            reuse = h[-1] == "@reuse"
+            h = [x for x in h if x != "@reuse"]
             for attempt in range(3):
-                jobs = [_host_job(pid, i) for i, pid in enumerate(h)]
+                jobs = [dict(_host_job(pid, i), reuse_env=reuse and i > 0) for i, pid in enumerate(h)]
                 res = vlib._run_batch(binary, jobs, 30)
                 out, suspicious = [], False
                 for j, pid in zip(jobs, h):
@@ -566,7 +571,8 @@ def c19():
             h = observed[hi - 1]
             first = next((i for i, e in enumerate(h) if e["obs"] != alone[e["prog"]]), 0)
             e = h[first]
-            v.violation("history %s: run %d (%s) gives %s, alone it gives %s" % ([x["prog"] for x in h], first + 1, e["prog"], json.dumps(e["obs"])[:200], json.dumps(alone[e["prog"]])[:200]),
+            how = " (all jobs on ONE re-used RuntimeEnvironment)" if hists[hi - 1][-1] == "@reuse" else ""
+            v.violation("history %s%s: run %d (%s) gives %s, alone it gives %s" % ([x["prog"] for x in h], how, first + 1, e["prog"], json.dumps(e["obs"])[:200], json.dumps(alone[e["prog"]])[:200]),
                         {"history": [x["prog"] for x in h], "programs": {p[0]: {"text": p[1], "mode": p[2], "typecheck": p[3]} for p in HOST_POOL if p[0] in {x["prog"] for x in h}},
                          "observed": h, "alone": {x["prog"]: alone[x["prog"]] for x in h}},
                         {"kind": "history", "crash": e["obs"]["crash"]})
